@@ -156,6 +156,15 @@ class C11(Prop):
                     if e[0] == "common" and r.chance(1, 2):
                         e[1] = r.choice(["${t}", {"m": [["k", "${t}"]]}, ["${u}"], "${t:k}"])
             yield {"op": "params", "layers": layers}
+        # include cycles of every shape, also with reference-bearing names on the back edges (C01's directed clauses and
+        # random cyclic graphs): construction and rendering must come back
+        from .c01 import CLAUSES as _C01
+        for c in _C01:
+            yield crash_case([{"path": f["path"], "content": f["content"]} for f in c["files"]], tag="include-cycles")
+        for i in range(40 if tier == "quick" else 800):
+            r = Rng(seed, "C11:cyc", i)
+            c = GI.gen_inventory(r, n_classes=r.range(2, 5), shape="cyclic", n_nodes=r.range(1, 2), refnames=90, nested=r.chance(1, 3))
+            yield crash_case(c["files"], tag="include-cycles")
         # entries with a YAML extension that are neither files nor directories: never opened, nothing may block
         for i in range(24 if tier == "quick" else 400):
             r = Rng(seed, "C11:special", i)
